@@ -61,6 +61,15 @@ def eval_case(kind, cfg, game):
                 msgs.append(("identical", f"{kind}.predict_rank: identical teams {a},{c} get probabilities {probs[a]!r}, {probs[c]!r}"))
     if n >= 3 and abs(sum(probs) + d - 1) > S * n:
         msgs.append(("sum", f"{kind}: sum of predict_rank probabilities {sum(probs)!r} + predict_draw {d!r} = {sum(probs) + d!r} != 1 for {game}"))
+    if not msgs:
+        al = lib.ratings_aliased(model, game)
+        if al is not None:
+            try:
+                r2 = model.predict_rank(al)
+            except Exception as e:
+                return [("exc", f"{kind}.predict_rank raised {type(e).__name__} when identical teams are one list object: {e}")]
+            if [k for k, _ in r2] != ranks or any(abs(p - q) > S for (_, p), q in zip(r2, probs)):
+                msgs.append(("alias", f"{kind}.predict_rank = {r2} when identical teams are one list object in several slots, {r} otherwise"))
     return msgs[:4]
 
 
@@ -103,3 +112,7 @@ def replay(case):
 def main(ctx, t0):
     acc = core.run_units(units(ctx), run_unit, ctx)
     return core.finish(PID, ctx, LEVEL, acc, RULE, {"exhaustive": True, "plan": [f"{s}/{K}" for s, K in pred.plan_spaces(ctx)]}, ASSUMPTIONS, t0)
+
+
+def replay_unit(unit, ctx):
+    return run_unit(unit, ctx)
